@@ -311,6 +311,17 @@ fs = f"{path!r:>30}|{sep}|{len(esc)}|{raw}\\\\{quotes}"
 by = b"\\\\x00\\\\\\xff"
 print(path, sep, repr(esc), quotes, raw, fs, by, path.replace("\\\\", "/"), esc.replace("\\n", "\\\\n"))
 ''',
+    "from_import_submodules": '''
+import sys
+sys.path.insert(0, '/verif/corpus')
+from pkgroot import alpha, zeta as Z
+from pkgroot.sub import leaf, sub_attr
+def load():
+    from pkgroot.sub.deep import bottom as b
+    import pkgroot.sub.other as o
+    return b.__name__, o.__name__
+print(alpha.attr, Z.__name__, leaf.__name__, sub_attr, load(), sorted(m for m in sys.modules if m.startswith('pkgroot')))
+''',
     "class_hooks": '''
 def deco(f):
     def wrapped(*a, **k):
